@@ -250,6 +250,34 @@ theorem flag_unrestricted (f : Flags) :
     f.unrestricted 3 = f.unrestricted 2 := by
   cases f; simp [Flags.unrestricted, Flags.noIgnore]
 
+/-- **Repeated and negated switches: the later one wins.**  Whatever precedes it on the command line, a switch
+or its negation given last decides its field (`--no-ignore` / `--ignore` decide the five fields dot, exclude,
+global, parent, vcs at once and leave `hidden`, `no_ignore_files`, `no_require_git` alone). -/
+theorem flags_later_wins (ts : List FlagTok) (v : Bool) :
+    (foldToks (ts ++ [.hidden v])).hidden = v ∧
+    (foldToks (ts ++ [.noIgnoreDot v])).no_ignore_dot = v ∧
+    (foldToks (ts ++ [.noIgnoreExclude v])).no_ignore_exclude = v ∧
+    (foldToks (ts ++ [.noIgnoreFiles v])).no_ignore_files = v ∧
+    (foldToks (ts ++ [.noIgnoreGlobal v])).no_ignore_global = v ∧
+    (foldToks (ts ++ [.noIgnoreParent v])).no_ignore_parent = v ∧
+    (foldToks (ts ++ [.noIgnoreVcs v])).no_ignore_vcs = v ∧
+    (foldToks (ts ++ [.noRequireGit v])).no_require_git = v ∧
+    (let f := foldToks (ts ++ [.noIgnore v]); let g := foldToks ts
+     f.no_ignore_dot = v ∧ f.no_ignore_exclude = v ∧ f.no_ignore_global = v ∧ f.no_ignore_parent = v ∧
+     f.no_ignore_vcs = v ∧ f.hidden = g.hidden ∧ f.no_ignore_files = g.no_ignore_files ∧
+     f.no_require_git = g.no_require_git) := by
+  simp [foldToks, List.foldl_append, applyTok]
+
+/-- `-u`, `-uu`, `-uuu` from a clean command line are `Flags.unrestricted`; a negation given after them takes its
+field back (`-uu --no-hidden` hides hidden files again, `-u --ignore-vcs` respects `.gitignore` again) -/
+theorem flags_unrestricted_fold :
+    foldToks [.unrestricted] = Flags.default.unrestricted 1 ∧
+    foldToks [.unrestricted, .unrestricted] = Flags.default.unrestricted 2 ∧
+    foldToks [.unrestricted, .unrestricted, .unrestricted] = Flags.default.unrestricted 3 ∧
+    (foldToks [.unrestricted, .unrestricted, .hidden false]).hidden = false ∧
+    (foldToks [.hidden false, .unrestricted, .unrestricted]).hidden = true ∧
+    (foldToks [.unrestricted, .noIgnoreVcs false]).no_ignore_vcs = false := by decide
+
 /-- non-vacuity: `.ignore` whitelists what `.gitignore` ignores, `.rgignore` ignores it again -/
 example :
     firstOf [M3.ignore, M3.whitelist, M3.ignore, M3.none, M3.none, M3.none] = M3.ignore ∧
